@@ -478,9 +478,10 @@ SCENARIO(rd_cancel_before_start) {
   w.finish();
 }
 
-// fault schedule: the first readv fails with a real error (EIO)
+// fault schedule: the first readv fails with a real error (EIO): the read must complete with EIO at once
+// (before the errno repair of /repo 1b893b7 it was parked: the monitor below stays armed for that)
 SCENARIO(rd_error_start) {
-  IoWorld w(1);
+  IoWorld w(0);
   rtio::fault(rtio::C_READV, w.rfd, 1, rtio::A_ERR, EIO);
   w.start_read(0, 8);
   w.fence();
@@ -488,9 +489,10 @@ SCENARIO(rd_error_start) {
   if (!(s.completions == 1 && s.outcome == O_ERROR && s.err == EIO))
     rt::fail("readv failed with EIO but the read did not complete with that error (%s)", s.completions == 0 ? "not completed: parked" : "other result");
   int t2 = -1;
-  if (s.completions == 0) t2 = rt::spawn([&] { w.cancel(0); });
+  if (s.completions == 0) t2 = rt::spawn([&] { w.cancel(0); });   // get a parked operation out of the way
   w.await(0);
   if (t2 >= 0) rt::join(t2);
+  w.c.stop_loop(false);
   w.finish();
 }
 
